@@ -73,7 +73,10 @@ def run(ctx):
         for w in [0, 1, P - 1, P, 2 ** 256 - 1]:
             add("u", v.to_bytes(32, "big") + w.to_bytes(32, "big"), "boundary")
     good = E.compress(E.rand_point(rng))
-    goodu = E.uncompressed(E.rand_point(rng))
+    gp = E.rand_point(rng)
+    if not E.lex_largest(gp[1]):
+        gp = ((-gp[0]) % P, (-gp[1]) % P)       # the member of the class with the canonical sign of y: a VALID 64-byte encoding
+    goodu = E.uncompressed(gp)
     for n in list(range(0, 34)) + [63, 64, 65, 100]:
         both_compressed((good + good)[:n], "length-%s" % ("32" if n == 32 else "bad"))
         add("u", (goodu + goodu)[:n], "length-%s" % ("64" if n == 64 else "bad"))
